@@ -27,6 +27,7 @@ code only ever inserts into them (PeerId only at those verified sites, with the 
 extends/removes/clears/clones them, and the `extensions` fields are mutably reachable only through the two
 accessor methods - nothing can overwrite the authenticated id after it was attached.
 The certificate-to-PeerId extraction answers only with the key parsed from the certificate handed in and touches no shared state (no memo written from unverified input).
+Every dial that knows whom it expects - the background dials of known peers included - is pinned to that identity (C03.7 shared).
 """
 TRUSTED = ["rustls/webpki/ring/x509-parser cryptography and DER parsing", "quinn::Connection::peer_identity returns the chain rustls verified",
            "rustls rejects an empty client certificate chain when client auth is mandatory"]
@@ -305,6 +306,9 @@ def run(cx):
         hb = cx.coroutine("anemo::network::request_handler::BiStreamRequestHandler::do_handle")
         ho = Origins(hb)
         ins = [c for c in hb.calls() if name_matches(c.fn, "http::extensions::Extensions::insert") and c.ga == ["anemo::types::peer_id::PeerId"] and not hb.is_cleanup(c.bb)]
+        if not ins:
+            ob.refute_and_stop("inbound/peer-id-attached", "do_handle never attaches the authenticated sender (Extensions::insert::<PeerId>) to the decoded request: handlers and "
+                               "authorization layers see no peer id at all", hb.path)
         ob.floor(ins, 1, "Extensions::insert::<PeerId> in do_handle", exact=True)
         v = strip_identity(arg_origin(ins[0], 1, ho))
         ok = v[0] == "call" and name_matches(v[1], "anemo::connection::Connection::peer_id") and mentions_field(v, "connection") and mentions_upvar(v, "self")
@@ -408,8 +412,11 @@ def run(cx):
         ob.require(not cl, "ext-clone", f"Extensions map cloned at {cl[:3]}", cl[0][0] if cl else "")
 
     with cx.ob("C01.11", "R-MUSTPASS", "a dial that names an identity is reported established only after the pinned handshake: the connect API always sends the ConnectRequest (as C03.10) and the manager's mailbox arm always dials it (C08.2 re-evaluated)") as ob:
-        from .c03 import check_connect_always_dials
+        from .c03 import check_connect_always_dials, check_dials_pinned
         check_connect_always_dials(ob, cx)
+        # ... and every dial that knows whom it expects - the background dials of known peers included - is pinned to that
+        # identity (C03.7): an answerer that cannot prove the expected key is never admitted under that dial
+        check_dials_pinned(ob, cx)
         from . import c08
         sub = cx.__class__("C01", prog, cx.tier, cx.config, cx.tree, repo=cx.repo)
         c08.run(sub)
